@@ -215,7 +215,7 @@ PROPS['C10'] = {
     'parts': [engine_part('chunks', 'e_views', 'C10', shards_quick=2, asan='thorough', miri=True, miri_args=['--maxn', '8'])],
     'rule': ("N in {0,1,2,3,7,8,16,17,33,64,100,1024} x every L in 0..=4N+3 (N>=100: {0,1,N-1,N,N+1,2N-1,2N,2N+1,4N+3}) x {chunks_from_slice, chunks_from_slice_mut} x element in {u8, padded (u8,u16), u64, (), 16-aligned, tracked}; oracle: parts are "
              "(src, L/N) and (src + (L/N)*N*size, L mod N), element [c][j] == src[c*N+j], slice_from_chunks(_mut) of the chunk part is (src, (L/N)*N), writes through each mutable part land at that source index, canaries untouched; N = 0: empty -> two empty "
-             "results, non-empty -> the documented panic. from_chunks/into_chunks(_mut) for chunk counts 0..=5: same address and count, writes visible. For zero-sized elements also L in {2^32-2, 2^32-1, 2^32, 2^32+7, 2^33+1, 2^40+N+1, isize::MAX} (lengths only). Non-trivial = L > 0."),
+             "results, non-empty -> the documented panic. from_chunks/into_chunks(_mut) and slice_from_chunks(_mut) applied directly to 0..=5 arrays (the only way to have chunks of length 0): same address and count, writes visible. For zero-sized elements also L in {2^32-2, 2^32-1, 2^32, 2^32+7, 2^33+1, 2^40+N+1, isize::MAX} (lengths only). Non-trivial = L > 0."),
     'exhaustive': True,
     'exhaustive_scope': 'the listed finite product; complete in L for N < 100',
     'assumptions': COMMON_ASSUME,
@@ -238,7 +238,7 @@ PROPS['C07'] = {
     'parts': [engine_part('scripted-source', 'e_ops', 'C07', shards_quick=4)],
     'rule': ("N in {0..8,16,17,33,100} x produced item count c in 0..=N+3 (and N = 1000 on a count / panic-index lattice) x size-hint policy in {exact, absent, lower-only, upper-only, loose both, lying low (upper < c), lying high (lower > c), changing between calls} x "
              "fused / not fused (a non-fused source yields again if polled after its first None, and counts such polls) x entry point in {try_from_iter, from_iter, try_boxed_from_iter, boxed from_iter} x element in {tracked, zero-sized tracked, u32}; "
-             "for each, the fault-free run and one run per next() call index with that call panicking (all policies for N<=5, exact/absent/lying-high otherwise). Oracle: Ok implies c == N and element i is the i-th produced item; c == N with a truthful "
+             "for each, the fault-free run and one run per next() call index with that call panicking (all policies for N<=5, exact/absent/lying-high otherwise). Oracle: Ok implies c == N and element i is the i-th produced item, and is impossible when the hint announced before the first pull already rules N out (lower > N or upper < N); c == N with a truthful "
              "hint implies Ok; otherwise LengthError or the 'expected N items' panic; at most N+1 next() calls; zero polls after the source returned None; every produced item dropped exactly once; an injected source panic propagates. "
              "A case is one tuple (+ panic index); non-trivial = c > 0 or N > 0."),
     'exhaustive': True,
@@ -260,9 +260,9 @@ PROPS['C08'] = {
 PROPS['C09'] = {
     'level': 'exploration',
     'technique': 'bounded exhaustive enumeration of (N, K, M, index, element size) for the sequence operations on the real code against the corresponding Vec operations, with ledger and address oracles',
-    'parts': [engine_part('sequence-ops', 'e_seq', 'C09', shards_quick=2, asan='quick', miri=True)],
-    'rule': ("complete for N in 0..=8: append/pop_back/prepend/pop_front chain, split::<K> for every K <= N in owned, & and &mut forms, concat for every (N, M) with N+M <= 8, remove(i) and swap_remove(i) for every i in 0..=N+1 and usize::MAX; plus "
-             "N in {15,16,17,31,32,33,63,64,100,255,256,1023,1024} with the position lattice {0,1,N/2,N-1,N}; element types of size 0 (tracked ZST, ()), 1 (u8), 2 (u16), 4 (tracked), 8 (tracked, u64), 24 (tracked, [u8;24]) and 128 (tracked). Oracle: results and removed values "
+    'parts': [engine_part('sequence-ops', 'e_seq', 'C09', shards_quick=4, asan='quick', asan_args=['--maxn', '33'], miri=True, miri_args=['--maxn', '17'])],
+    'rule': ("complete for N in 0..=8: append/pop_back/prepend/pop_front chain, split::<K> for every K <= N in owned, & and &mut forms, concat for every (N, M) with N+M <= 8, remove(i) and swap_remove(i) (and their *_unchecked forms on valid indices) for every i in 0..=N+1 and usize::MAX, for every N in {1..13,15,16,17,24,32,33,64,100} and a 27-point index lattice for 256 and 1024; plus "
+             "N in {15,16,17,31,32,33,63,64,100,255,256,1023,1024} with the split/concat position lattice {0,1,N/2,N-1,N}; element types of size 0 (tracked ZST, ()), 1 (u8), 2 (u16), 4 (tracked), 8 (tracked, u64), 24 (tracked, [u8;24]) and 128 (tracked). Oracle: results and removed values "
              "equal Vec push/insert(0)/pop/remove(0)/split_at/extend/remove/swap_remove on the same identities; the ledger shows exactly-once ownership after every step; out-of-range remove/swap_remove raise the documented panic with every element "
              "dropped once; by-reference split halves are (base, K) and (base + K*size, N-K) and a write at every index through the &mut halves appears at that index of the original. Non-trivial = N > 0."),
     'exhaustive': True,
